@@ -1,5 +1,11 @@
 package mem
 
+import (
+	"fmt"
+
+	"github.com/DrmagicE/gmqtt/persistence/queue"
+)
+
 // Added by the verification overlay (never part of /repo): read-only access to the queue's true
 // contents for the C10 oracle.
 
@@ -12,4 +18,24 @@ func (q *Queue) VerifLen() (total, beforeCursor int) {
 		beforeCursor++
 	}
 	return
+}
+
+// VerifDump lists the elements in order: kind, packet id, payload, and a '|' where the read cursor is.
+func (q *Queue) VerifDump() []string {
+	var out []string
+	for e := q.l.Front(); e != nil; e = e.Next() {
+		s := ""
+		if e == q.current {
+			s = "| "
+		}
+		el := e.Value.(*queue.Elem)
+		switch m := el.MessageWithID.(type) {
+		case *queue.Publish:
+			s += fmt.Sprintf("PUBLISH pid=%d q%d %s", m.PacketID, m.QoS, m.Payload)
+		case *queue.Pubrel:
+			s += fmt.Sprintf("PUBREL pid=%d", m.PacketID)
+		}
+		out = append(out, s)
+	}
+	return out
 }
